@@ -219,6 +219,9 @@ func (g *Gen) HeaderFor(r *FnResult) string {
 	if has("rnd") {
 		b.WriteString(PreludeRnd())
 	}
+	if has("pfloat") || has("pfloat_ok") {
+		b.WriteString(PreludeParseFloat())
+	}
 	b.WriteString(`(define-fun godiv ((a Int) (b Int)) Int (ite (>= a 0) (ite (> b 0) (div a b) (- (div a (- b)))) (ite (> b 0) (- (div (- a) b)) (div (- a) (- b)))))
 (define-fun gomod ((a Int) (b Int)) Int (- a (* b (godiv a b))))
 `)
